@@ -141,7 +141,7 @@ class ChunkRaw(io.RawIOBase):
         return n
 
 
-class Timeout(Exception):
+class Timeout(BaseException):   # not an Exception: handlers of the implementation must not swallow it
     pass
 
 
